@@ -147,7 +147,7 @@ func (c *Check) debitPayer(rule string) {
 	for _, e := range c.P.SummaryOf(u.NB.Closure).Effs {
 		if isEscrowCredit(e) {
 			n++
-			c.req(e.From.String() == "(.RequestContext.Consumer P1)", rule, effConstruct(u.NB.Closure.Name, e), e.Pos, "payer "+shortTerm(e.From)+" is the Consumer of the context being batched")
+			c.req(e.From.String() == "(.RequestContext.Consumer "+u.NB.ValP+")", rule, effConstruct(u.NB.Closure.Name, e), e.Pos, "payer "+shortTerm(e.From)+" is the Consumer of the context being batched")
 		}
 	}
 	c.req(n >= 1, rule, "debit-sites", token.NoPos, fmt.Sprintf("%d escrow credits in the new-batch handler", n))
@@ -181,7 +181,7 @@ func (c *Check) filterRules(prefix string) {
 		return
 	}
 	for i, a := range call.CI.args {
-		if strings.HasPrefix(a.Op, ".RequestContext.") && len(a.A) == 1 && a.A[0].IsAt("P1") {
+		if strings.HasPrefix(a.Op, ".RequestContext.") && len(a.A) == 1 && a.A[0].IsAt(u.NB.ValP) {
 			roles[strings.TrimPrefix(a.Op, ".RequestContext.")] = fmt.Sprintf("P%d", i)
 		}
 	}
@@ -336,7 +336,7 @@ func (c *Check) issueDecision(rule string) {
 		}
 		if n.issue {
 			_, a := hasFact(af, "(nonempty "+ps+")", false)
-			_, b := hasFact(af, "(< (len "+ps+") (conv int (.RequestContext.ResponseThreshold P1)))", true)
+			_, b := hasFact(af, "(< (len "+ps+") (conv int (.RequestContext.ResponseThreshold "+u.NB.ValP+")))", true)
 			if !a || !b {
 				problems = append(problems, fmt.Sprintf("an issuing path is not dominated by len(list)>0=%v ∧ len(list)≥ResponseThreshold=%v", a, b))
 			}
@@ -377,20 +377,17 @@ func (c *Check) scanOrder(rule string) {
 		if !pa.OK() {
 			continue
 		}
+		// the calls that hand the expired-batch / new-batch handlers to their queue scans
 		i9, i10 := -1, -1
 		for i, ev := range pa.Events {
-			if ev.Kind != EvCall || ev.CI.fn == nil {
+			if ev.Kind != EvCall {
 				continue
 			}
-			for _, e := range c.P.SummaryOf(ev.CI.fn).Effs {
-				if e.Kind == "store" && e.Op == "Iter" && len(e.Chain) == 0 {
-					if e.Family == "0x09" && i9 < 0 {
-						i9 = i
-					}
-					if e.Family == "0x10" && i10 < 0 {
-						i10 = i
-					}
-				}
+			if u.EB.Caller == f && ev.Node == u.EB.Call.Node && i9 < 0 {
+				i9 = i
+			}
+			if u.NB.Caller == f && ev.Node == u.NB.Call.Node && i10 < 0 {
+				i10 = i
 			}
 		}
 		c.req(i9 >= 0 && i10 >= 0 && i9 < i10, rule, unitConstruct(f, "expired-before-new"), f.Body.Pos(),
